@@ -88,6 +88,35 @@ def rnd (q : Rat) : Num :=
       let v : Rat := (m : Rat) * pow2 e
       .fin (if neg then -v else v)
 
+/-- binary32 counterpart of `ulpExp`: `2^23 ≤ a / 2^e < 2^24`, clamped below at -149 -/
+def ulpExp32 (a : Rat) : Int :=
+  let n : Nat := a.num.toNat
+  let d : Nat := a.den
+  let e0 : Int := (Nat.log2 n : Int) - (Nat.log2 d : Int) - 23
+  let e1 : Int := if a / pow2 e0 < pow2 23 then e0 - 1 else e0
+  let e2 : Int := if pow2 24 ≤ a / pow2 e1 then e1 + 1 else e1
+  if e2 < -149 then -149 else e2
+
+/-- Go's `float32(x)` followed by the exact widening back to float64: round to the nearest binary32
+    value (ties to even), overflow to ±infinity -/
+def rnd32 (q : Rat) : Num :=
+  if q == 0 then .fin 0
+  else
+    let neg : Bool := q < 0
+    let a : Rat := if neg then -q else q
+    let e : Int := ulpExp32 a
+    let m : Nat := roundHalfEvenNat (a / pow2 e)
+    if m == 0 then (if neg then .nzero else .fin 0)
+    else if e > 104 || (e == 104 && m ≥ 2 ^ 24) then (if neg then .ninf else .pinf)
+    else
+      let v : Rat := (m : Rat) * pow2 e
+      .fin (if neg then -v else v)
+
+/-- conversion of a double to float32 precision -/
+def toFloat32 : Num → Num
+  | .fin q => rnd32 q
+  | x => x
+
 /-! ### bit-level transport -/
 
 def ofBits (b : UInt64) : Num :=
